@@ -68,7 +68,9 @@ fn sample_scenarios() -> Vec<Scenario> {
 /// notifications even when it is the only client thread (the same call issued from inside a
 /// callback does not): such scenarios have no schedule-independent event sequence.
 fn deterministic(scn: &Scenario) -> bool {
-    !scn.threads.iter().flatten().any(|o| matches!(o, Op::Unsubscribe { .. } | Op::Subscribe { .. }))
+    // (and two client threads interleave their returns as the schedule pleases)
+    scn.threads.iter().filter(|t| !t.is_empty()).count() <= 1
+        && !scn.threads.iter().flatten().any(|o| matches!(o, Op::Unsubscribe { .. } | Op::Subscribe { .. }))
 }
 
 /// The projection both flavours must agree on.
